@@ -96,7 +96,8 @@ def addterm_case(draw):
     else:
         spec['init_terms'] = draw(st.lists(signed_term(), min_size=0, max_size=3))
     base_pool = draw(st.lists(core_term(), min_size=1, max_size=3))
-    spec['adds'] = draw(st.lists(signed_term(pool + base_pool), min_size=0, max_size=10))
+    from harness import gen
+    spec['adds'] = draw(st.lists(signed_term(pool + base_pool), min_size=0, max_size=gen.size(10, 30)))
     spec['desc'] = draw(st.sampled_from(['', 'a description', 'uses = and # inside']))
     spec['vals'] = [{n: '%d/%d' % (draw(st.integers(1, 40)) * draw(st.sampled_from([1, -1])), draw(st.integers(1, 9)))
                      for n in NAMES} for _ in range(VAL_ENV_SIZES)]
